@@ -466,10 +466,21 @@ func (b BrokenFeatures) Error() string {
 }
 
 func (b *BasicWorldBuilder) Finish(o *BuildOptions) (b6.World, error) {
+	// Areas are handled in a second stage, since validating an area reads
+	// the paths it's made from, which validation can invert or remove.
 	stages := []func(toIndex chan<- Feature, byID *FeaturesByID){
 		func(c chan<- Feature, features *FeaturesByID) {
 			for _, feature := range *features {
-				c <- feature
+				if feature.FeatureID().Type != b6.FeatureTypeArea {
+					c <- feature
+				}
+			}
+		},
+		func(c chan<- Feature, features *FeaturesByID) {
+			for _, feature := range *features {
+				if feature.FeatureID().Type == b6.FeatureTypeArea {
+					c <- feature
+				}
 			}
 		},
 	}
